@@ -347,4 +347,44 @@ func runC14(c *vk.Ctx) {
 	c.Sample(map[string]any{"tick": -108000000, "price_scaled_1e36": refPriceScaled(-108000000).String(), "expected_sqrt_1e36": refSqrtScaled36(-108000000, refPriceScaled(-108000000)).String()})
 	c.Sample(map[string]any{"tick": 9000001, "price_scaled_1e36": refPriceScaled(9000001).String()})
 	_ = osmomath.OneBigDec
+	runC14Concurrent(c)
+}
+
+
+// runC14Concurrent: tick / price conversions are called from query goroutines while blocks execute; calls that share
+// no operand must not influence each other (no package-level scratch space, no unsynchronised caches).
+func runC14Concurrent(c *vk.Ctx) {
+	c.Cases("concurrent-callers", c.N(24, 960), func(i int, r *vk.Rng) {
+		var calls []vk.Call
+		for k := 0; k < 600; k++ {
+			t := r.Range(-108000000, 342000000)
+			if r.Intn(6) == 0 {
+				t = r.Range(-270000000, -108000001)
+			}
+			switch r.Intn(4) {
+			case 0:
+				calls = append(calls, vk.Call{Name: "TickToSqrtPrice", Fn: func() string { v, err := clmath.TickToSqrtPrice(t); return fmt.Sprint(v, err) }})
+			case 1:
+				calls = append(calls, vk.Call{Name: "TickToPrice", Fn: func() string { v, err := clmath.TickToPrice(t); return fmt.Sprint(v, err) }})
+			case 2:
+				calls = append(calls, vk.Call{Name: "CalculateSqrtPriceToTick", Fn: func() string {
+					sp, err := clmath.TickToSqrtPrice(t)
+					if err != nil {
+						return err.Error()
+					}
+					v, err := clmath.CalculateSqrtPriceToTick(sp)
+					return fmt.Sprint(v, err)
+				}})
+			default:
+				sp := []uint64{1, 10, 100, 1000}[r.Intn(4)]
+				calls = append(calls, vk.Call{Name: "RoundDownTickToSpacing", Fn: func() string { v, err := clmath.RoundDownTickToSpacing(t, int64(sp)); return fmt.Sprint(v, err) }})
+			}
+		}
+		c.Eval(int64(len(calls)) * 4)
+		if k, alone, together := vk.ConcurrentSame(calls, 8, 3); k >= 0 {
+			c.Violate("C14.concurrent_callers", map[string]any{"fn": calls[k].Name}, "%s returned %s when called alone and %s when 8 goroutines were inside the tick math at once", calls[k].Name, alone, together)
+			return
+		}
+		c.Class("concurrent|batch-of-600|8-goroutines")
+	})
 }
